@@ -274,6 +274,27 @@ def axis_sweep():
                 yield {"tree": t, "pscale": 0.3, "inp": inp, "dbl_invert": False}
 
 
+def partial_slice_sweep():
+    """Exhaustive: Partial with every bare slice (start, stop, step; negative steps and None included) that selects at
+    least one element of a leading axis of length 1-5, and 2-D shapes; the child is an Affine over the selected block."""
+    inp = {"xraw": [0.3, -1.1, 0.7, 1.9, -0.4, 0.05, 2.2, -0.9], "xpick": [-1] * 8, "craw": [0.4, -0.6, 1.1, 0.2, -1.3, 0.9, 0.1, -0.2],
+           "sigma": 1.0}
+    seen = set()
+    for sh in [(1,), (2,), (3,), (4,), (5,), (4, 2), (5, 1)]:
+        n0 = sh[0]
+        for start in [None] + list(range(-n0, n0)):
+            for stop in [None] + list(range(-n0, n0 + 1)):
+                for step in (None, 1, 2, 3, -1, -2):
+                    sel = np.arange(n0)[slice(start, stop, step)]
+                    key = (sh, tuple(sel.tolist()), step is not None and step < 0)
+                    if len(sel) == 0 or key in seen:
+                        continue
+                    seen.add(key)
+                    yield {"tree": {"k": "Partial", "shape": list(sh), "idx": {"t": "slice", "v": [start, stop, step]},
+                                    "child": {"k": "Affine", "shape": [len(sel)] + list(sh[1:]), "seed": 5}},
+                           "pscale": 0.3, "inp": inp, "dbl_invert": False}
+
+
 def run(ctx):
     q = ctx.tier == "quick"
     n = 0
@@ -285,5 +306,13 @@ def run(ctx):
             ctx.fail(v.signature, c, v.detail)
         n += 1
     ctx.exhaustive["axis_sweep"] = n
+    n = 0
+    for c in shard(partial_slice_sweep(), ctx):
+        try:
+            oracle(c, ctx)
+        except Violation as v:
+            ctx.fail(v.signature, c, v.detail)
+        n += 1
+    ctx.exhaustive["partial_slice_sweep"] = n
     run_hypothesis(ctx, cases(3, 8) if q else cases(4, 14), oracle, 110 if q else 600, "C08-trees")
     run_hypothesis(ctx, mt_cases(), oracle_merge_transforms, 15 if q else 150, "C08-merge_transforms")
